@@ -33,14 +33,14 @@ func (l *Log) Events() []string { return append([]string(nil), l.ev...) }
 func (l *Log) Len() int { return len(l.ev) }
 
 // DetRand is a deterministic byte source (for uuid.SetRand); safe to share between managed threads.
-type DetRand struct{ n uint64 }
+type DetRand struct{ N uint64 }
 
 //go:norace
 //go:noinline
 func (d *DetRand) Read(p []byte) (int, error) {
 	for i := 0; i < len(p); i += 8 {
-		d.n++
-		x := d.n*0x9E3779B97F4A7C15 + 0x1234567
+		d.N++
+		x := d.N*0x9E3779B97F4A7C15 + 0x1234567
 		for j := 0; j < 8 && i+j < len(p); j++ {
 			p[i+j] = byte(x >> (56 - 8*uint(j)))
 		}
